@@ -644,6 +644,29 @@ def r27(text):
     return text, n
 
 
+@rule("R37", "Definition of Option::filter with a closure: `X.filter(|p| C)` -> `match X { Some(v_) => if { let p = &v_; C } { Some(v_) } else { None }, None => None }` "
+             "(`|_| C` omits the binding).")
+def r37(text):
+    n = 0
+    while True:
+        m = re.search(r"\.\s*filter\(\s*\|\s*(\w+)\s*\|", text)
+        if not m:
+            break
+        o = text.index("(", m.start())
+        toks = tokenize(text[o:])
+        c = o + toks[match_close(toks, 0)].start
+        inner = text[m.end():c].strip()
+        rs = _receiver_start(text, m.start())
+        recv = text[rs:m.start()].rstrip()
+        bind = "" if m.group(1) == "_" else "let %s = &v_; " % m.group(1)
+        rep = "(match %s { Some(v_) => if { %s%s } { Some(v_) } else { None }, None => None })" % (recv, bind, inner)
+        old = text[rs:c + 1]
+        rep = rep + "\n" * max(0, old.count("\n") - rep.count("\n"))
+        text = text[:rs] + rep + text[c + 1:]
+        n += 1
+    return text, n
+
+
 @rule("R31", "`S.split_at(mid)` -> `slice_split_at(S, mid)`: verified definitional implementation whose precondition "
              "`mid <= len` is the panic condition of the std function.")
 def r31(text):
@@ -705,6 +728,21 @@ def t_bw(text):
         (r"\bwhere\s+D:[^;{]*?E:[^;{]*?(?=[;{])", ""),
         (r"\bpub\(crate\)\s*", "pub "),
     ], text)
+
+
+@rule("T_file", "Type-level (file.rs): the generic bounds of `ChunkedReadFile<D: .., E: ..>` dropped (they only select impls); "
+                "`std::fs::File` / `::std::fs::Metadata` -> the prelude's opaque `fs::File` / `fs::Metadata` (what a file is stays the OS's business).")
+def t_file(text):
+    return _subn([
+        (r"<\s*D\s*:[^{;]*?\bE\s*:[^{;]*?>\s*(?=\{)", "<D, E> "),
+        (r"(?:::)?\bstd::fs::(File|Metadata)\b", r"fs::\1"),
+    ], text)
+
+
+@rule("R36", "Function-local `static NAME: usize = <literal>;` -> `const NAME: usize = <literal>;` (an immutable integer static and a const "
+             "of the same value are interchangeable in expressions; Verus has no function-local statics).")
+def r36(text):
+    return re.subn(r"\bstatic\s+(\w+)\s*:\s*(usize|u64|u32)\s*=\s*(\d[\d_]*)\s*;", r"const \1: \2 = \3;", text)
 
 
 @rule("R17", "`path.as_bytes()` -> `path` with the parameter typed `&[u8]` in the overlay (Verus has no byte view of `str`; "
